@@ -78,14 +78,51 @@ def input_hash(repo, config):
     return h.hexdigest()
 
 
-def extract(repo, config, outdir, packages=("rawdb", "vecdb"), dump=("rawdb", "vecdb"), extra_args=(), require=None):
+def _release_shared(tgt, lockfh):
+    """drop the workspace members' artefacts (they belong to a worktree that is about to vanish) and unlock"""
+    import glob as _glob
+    for pat in ("debug/.fingerprint/rawdb-*", "debug/.fingerprint/vecdb*-*", "debug/deps/*rawdb-*", "debug/deps/*vecdb*-*",
+                "debug/build/rawdb-*", "debug/build/vecdb*-*", "debug/incremental/rawdb-*", "debug/incremental/vecdb*-*"):
+        for x in _glob.glob(os.path.join(tgt, pat)):
+            if os.path.isdir(x):
+                shutil.rmtree(x, ignore_errors=True)
+            else:
+                try:
+                    os.remove(x)
+                except OSError:
+                    pass
+    if lockfh is not None:
+        try:
+            import fcntl
+            fcntl.flock(lockfh, fcntl.LOCK_UN)
+            lockfh.close()
+        except OSError:
+            pass
+
+
+def extract(repo, config, outdir, packages=("rawdb", "vecdb"), dump=("rawdb", "vecdb"), extra_args=(), require=None,
+            _fresh_only=False):
     """Run cargo check with the driver as workspace wrapper; facts land in outdir."""
     build_driver()
     os.makedirs(outdir, exist_ok=True)
     for f in os.listdir(outdir):
         if f.endswith(".json"):
             os.remove(os.path.join(outdir, f))
-    tgt = tempfile.mkdtemp(prefix="verif-tgt-", dir=os.environ.get("VERIF_SCRATCH", "/tmp"))
+    # Scratch trees (corpus patches in throw-away worktrees) share one target directory per configuration: the
+    # registry dependencies are compiled once, only the workspace members (whose package ids differ with the
+    # worktree path, so cargo never considers them fresh) are re-checked - and with them the driver runs.  /repo
+    # itself and the fixtures always get a fresh directory.
+    shared = (os.path.realpath(repo) != os.path.realpath(REPO) and config in CONFIGS and not _fresh_only
+              and not os.environ.get("VERIF_NO_SHARED_TARGET"))
+    lockfh = None
+    if shared:
+        os.makedirs(CACHE, exist_ok=True)
+        tgt = os.path.join(CACHE, "target-%s" % config)
+        import fcntl
+        lockfh = open(tgt + ".lock", "w")
+        fcntl.flock(lockfh, fcntl.LOCK_EX)
+    else:
+        tgt = tempfile.mkdtemp(prefix="verif-tgt-", dir=os.environ.get("VERIF_SCRATCH", "/tmp"))
     try:
         env = dict(os.environ)
         env.update({
@@ -114,11 +151,20 @@ def extract(repo, config, outdir, packages=("rawdb", "vecdb"), dump=("rawdb", "v
             raise RuntimeError("fact extraction failed (cargo check exit %d)" % rc)
         for d in (require if require is not None else dump):
             if not os.path.exists(os.path.join(outdir, d + ".json")):
+                if shared:
+                    # cargo judged a member fresh (should not happen: the path differs) - fall back to a fresh dir
+                    _release_shared(tgt, lockfh)
+                    lockfh = None
+                    shared = False
+                    return extract(repo, config, outdir, packages, dump, extra_args, require, _fresh_only=True)
                 sys.stderr.write(out[-3000:])
                 raise RuntimeError("fact file missing for crate %s (driver skipped?)" % d)
         return dt
     finally:
-        shutil.rmtree(tgt, ignore_errors=True)
+        if shared:
+            _release_shared(tgt, lockfh)
+        elif lockfh is None and not tgt.startswith(CACHE):
+            shutil.rmtree(tgt, ignore_errors=True)
 
 
 def ensure_fixture_facts():
